@@ -78,7 +78,8 @@ Record rawcfg := mkRaw {
   rc_keyttl : Z; rc_size : Z; rc_sttl : Z; rc_mttl : Z;   (* ticks / entries *)
   rc_ordered : bool }.
 
-Record chcfg := mkCfg { cf_mode : N; cf_keyttl : N; cf_size : N; cf_ordered : bool }.
+Record chcfg := mkCfg { cf_mode : N; cf_keyttl : N; cf_size : N; cf_ordered : bool;
+                        cf_sttl : N; cf_mttl : N }.   (* resolved StreamTTL / MetaTTL in ticks (0 = none) *)
 
 Definition has_stream (m : N) : bool := (m =? 2) || (m =? 3).
 Definition has_expiry (m : N) : bool := (m =? 1) || (m =? 2).
@@ -114,8 +115,8 @@ Definition resolve (r : rawcfg) : cfgres :=
     if (0 <? mttl)%Z && (mttl <? sttl)%Z then CfgErr 12 else
     if (0 <? mttl)%Z && (rc_keyttl r =? 0)%Z then CfgErr 13 else
     if (0 <? mttl)%Z && (0 <? rc_keyttl r)%Z && (mttl <? rc_keyttl r)%Z then CfgErr 14 else
-    CfgOk (mkCfg m (Z.to_N (rc_keyttl r)) (Z.to_N size) (rc_ordered r))
-  else CfgOk (mkCfg m (Z.to_N (rc_keyttl r)) 0 (rc_ordered r)).
+    CfgOk (mkCfg m (Z.to_N (rc_keyttl r)) (Z.to_N size) (rc_ordered r) (Z.to_N sttl) (Z.to_N mttl))
+  else CfgOk (mkCfg m (Z.to_N (rc_keyttl r)) 0 (rc_ordered r) 0 (Z.to_N (rc_mttl r))).
 
 Definition unset_cfg := mkRaw 0 0 0 0 0 false.
 Definition cfg_of (cfgs : list rawcfg) (ch : N) : cfgres := resolve (nth (N.to_nat ch) cfgs unset_cfg).
@@ -172,6 +173,13 @@ Record event := mkEv { ev_ch : N; ev_key : key; ev_exp : N; ev_tags : option N; 
 
 Record bcast := mkBc { b_ch : N; b_pub : pub; b_pos : pos; b_delta : bool; b_prev : option pub }.
 
+(* StreamTTL / MetaTTL bookkeeping: expires / expireQueue / nextExpireCheck and
+   removes / removeQueue / nextRemoveCheck *)
+Record retention := mkRet {
+  r_sexp : list (N * N); r_squeue : list (N * N); r_snext : N;
+  r_rexp : list (N * N); r_rqueue : list (N * N); r_rnext : N }.
+Definition ret0 : retention := mkRet [] [] 0 [] [] 0.
+
 Record hub := mkHub {
   h_chans : list (N * mchan);
   h_kexp : list (ck * N);                 (* keyExpires *)
@@ -182,26 +190,29 @@ Record hub := mkHub {
   h_nep : N;                              (* next fresh epoch *)
   h_pend : list event;                    (* sweep in flight: Phase-1 snapshot not yet re-validated *)
   h_pnow : N;                             (* the sweep's captured [now] *)
-  h_bcast : list bcast }.                 (* HandlePublication calls, chronological *)
+  h_bcast : list bcast;                   (* HandlePublication calls, chronological *)
+  h_ret : retention }.
 
-Definition hub0 : hub := mkHub [] [] [] 0 [] 0 1 [] 0 [].
+Definition hub0 : hub := mkHub [] [] [] 0 [] 0 1 [] 0 [] ret0.
 
 Definition get_chan (h : hub) (ch : N) : option mchan := aget N.eqb (h_chans h) ch.
 Definition set_chans (h : hub) (cs : list (N * mchan)) : hub :=
-  mkHub cs (h_kexp h) (h_queue h) (h_next h) (h_idem h) (h_now h) (h_nep h) (h_pend h) (h_pnow h) (h_bcast h).
+  mkHub cs (h_kexp h) (h_queue h) (h_next h) (h_idem h) (h_now h) (h_nep h) (h_pend h) (h_pnow h) (h_bcast h) (h_ret h).
 Definition set_chan (h : hub) (ch : N) (c : mchan) : hub := set_chans h (aset N.eqb (h_chans h) ch c).
 Definition set_exp (h : hub) (kexp queue : list (ck * N)) (next : N) : hub :=
-  mkHub (h_chans h) kexp queue next (h_idem h) (h_now h) (h_nep h) (h_pend h) (h_pnow h) (h_bcast h).
+  mkHub (h_chans h) kexp queue next (h_idem h) (h_now h) (h_nep h) (h_pend h) (h_pnow h) (h_bcast h) (h_ret h).
 Definition set_idem (h : hub) (i : list (N * list (N * (pos * N)))) : hub :=
-  mkHub (h_chans h) (h_kexp h) (h_queue h) (h_next h) i (h_now h) (h_nep h) (h_pend h) (h_pnow h) (h_bcast h).
+  mkHub (h_chans h) (h_kexp h) (h_queue h) (h_next h) i (h_now h) (h_nep h) (h_pend h) (h_pnow h) (h_bcast h) (h_ret h).
 Definition set_now (h : hub) (t : N) : hub :=
-  mkHub (h_chans h) (h_kexp h) (h_queue h) (h_next h) (h_idem h) t (h_nep h) (h_pend h) (h_pnow h) (h_bcast h).
+  mkHub (h_chans h) (h_kexp h) (h_queue h) (h_next h) (h_idem h) t (h_nep h) (h_pend h) (h_pnow h) (h_bcast h) (h_ret h).
 Definition set_nep (h : hub) (e : N) : hub :=
-  mkHub (h_chans h) (h_kexp h) (h_queue h) (h_next h) (h_idem h) (h_now h) e (h_pend h) (h_pnow h) (h_bcast h).
+  mkHub (h_chans h) (h_kexp h) (h_queue h) (h_next h) (h_idem h) (h_now h) e (h_pend h) (h_pnow h) (h_bcast h) (h_ret h).
 Definition set_pend (h : hub) (p : list event) (t : N) : hub :=
-  mkHub (h_chans h) (h_kexp h) (h_queue h) (h_next h) (h_idem h) (h_now h) (h_nep h) p t (h_bcast h).
+  mkHub (h_chans h) (h_kexp h) (h_queue h) (h_next h) (h_idem h) (h_now h) (h_nep h) p t (h_bcast h) (h_ret h).
+Definition set_ret (h : hub) (r : retention) : hub :=
+  mkHub (h_chans h) (h_kexp h) (h_queue h) (h_next h) (h_idem h) (h_now h) (h_nep h) (h_pend h) (h_pnow h) (h_bcast h) r.
 Definition add_bcast (h : hub) (b : bcast) : hub :=
-  mkHub (h_chans h) (h_kexp h) (h_queue h) (h_next h) (h_idem h) (h_now h) (h_nep h) (h_pend h) (h_pnow h) (h_bcast h ++ [b]).
+  mkHub (h_chans h) (h_kexp h) (h_queue h) (h_next h) (h_idem h) (h_now h) (h_nep h) (h_pend h) (h_pnow h) (h_bcast h ++ [b]) (h_ret h).
 
 Definition new_chan (epoch : N) (ordered : bool) : mchan :=
   mkChan (mkStream 0 epoch []) [] ordered [] false false false.
@@ -217,6 +228,27 @@ Definition chan_pos (c : mchan) : pos := (s_top (c_stream c), s_epoch (c_stream 
 Definition track (h : hub) (k : ck) (d : N) : hub :=
   set_exp h (aset ck_eqb (h_kexp h) k d) ((k, d) :: h_queue h)
           (if (h_next h =? 0) || (d <? h_next h) then d else h_next h).
+
+(* expires[ch] = now + StreamTTL (queue item pushed only when the channel had none) *)
+Definition ttl_touch (m q : list (N * N)) (next : N) (ch d : N) : list (N * N) * list (N * N) * N :=
+  (aset N.eqb m ch d,
+   match aget N.eqb m ch with Some _ => q | None => (ch, d) :: q end,
+   if (next =? 0) || (d <? next) then d else next).
+
+Definition touch_stream (h : hub) (ch sttl : N) : hub :=
+  let r := h_ret h in
+  let '(m, q, nx) := ttl_touch (r_sexp r) (r_squeue r) (r_snext r) ch (h_now h + sttl) in
+  set_ret h (mkRet m q nx (r_rexp r) (r_rqueue r) (r_rnext r)).
+(* removes[ch] = now + MetaTTL, only when MetaTTL > 0 (also updateMetaTTL of the read paths) *)
+Definition touch_meta (h : hub) (ch mttl : N) : hub :=
+  if 0 <? mttl then
+    let r := h_ret h in
+    let '(m, q, nx) := ttl_touch (r_rexp r) (r_rqueue r) (r_rnext r) ch (h_now h + mttl) in
+    set_ret h (mkRet (r_sexp r) (r_squeue r) (r_snext r) m q nx)
+  else h.
+(* the TTL bookkeeping of a stream append in add / remove *)
+Definition ret_touch (cf : chcfg) (h : hub) (ch : N) : hub :=
+  if has_stream (cf_mode cf) then touch_meta (touch_stream h ch (cf_sttl cf)) ch (cf_mttl cf) else h.
 
 (* ------------------------------------------------------------ publish *)
 Inductive kmode := KReplace | KIfNew | KIfExists.
@@ -272,7 +304,7 @@ Definition add_keymode (cf : chcfg) (h1 : hub) (ch : N) (c : mchan) (k : key) (o
       if po_refresh o && (0 <? cf_keyttl cf) then
         let d := h_now h1 + cf_keyttl cf in
         let c' := set_entry_nodirty c (aset key_eqb (c_state c) k (mkEntry (e_pub e) d (e_ver e) (e_vep e))) in
-        Some (track (set_chan h1 ch c') (ch, k) d, RKeyExists)
+        Some (touch_meta (track (set_chan h1 ch c') (ch, k) d) ch (cf_mttl cf), RKeyExists)
       else Some (h1, RKeyExists)
   | KIfExists, None => Some (h1, RKeyNotFound)
   | _, _ => None
@@ -300,7 +332,7 @@ Definition add_commit (cf : chcfg) (h1 : hub) (ch : N) (c : mchan) (k : key) (o 
     else (c, chan_pos c) in
   (* statePub.Offset is assigned only on the stream path or together with the state entry *)
   let thepub := mk (if has_stream (cf_mode cf) || negb (is_empty k) then fst p else 0) in
-  if is_empty k then (set_chan h1 ch c1, p, prev, RNone, Some thepub) else
+  if is_empty k then (ret_touch cf (set_chan h1 ch c1) ch, p, prev, RNone, Some thepub) else
   let d := if 0 <? cf_keyttl cf then h_now h1 + cf_keyttl cf else 0 in
   let '(ver, vep) :=
     if po_ver o =? 0 then match cur with Some e => (e_ver e, e_vep e) | None => (0, po_vep o) end
@@ -308,7 +340,7 @@ Definition add_commit (cf : chcfg) (h1 : hub) (ch : N) (c : mchan) (k : key) (o 
   let c2 := set_state c1 (aset key_eqb (c_state c1) k (mkEntry thepub d ver vep)) in
   let h2 := set_chan h1 ch c2 in
   let h3 := if 0 <? cf_keyttl cf then track h2 (ch, k) d else h2 in
-  (h3, p, prev, RNone, Some thepub).
+  (ret_touch cf h3 ch, p, prev, RNone, Some thepub).
 
 Definition add (cf : chcfg) (h : hub) (ch : N) (k : key) (o : popts)
   : hub * pos * option pub * reason * option pub :=
@@ -391,7 +423,7 @@ Definition hremove (cf : chcfg) (h : hub) (ch : N) (k : key) (o : ropts)
         let h1 := set_exp h (adel ck_eqb (h_kexp h) (ch, k)) (h_queue h) (h_next h) in
         if has_stream (cf_mode cf) then
           let '(s', off) := stream_add (c_stream c1) mk (cf_size cf) in
-          (set_chan h1 ch (set_stream c1 s'), (off, s_epoch s'), Some (mk off), RNone)
+          (ret_touch cf (set_chan h1 ch (set_stream c1 s')) ch, (off, s_epoch s'), Some (mk off), RNone)
         else (set_chan h1 ch c1, pos0, Some (mk 0), RNone)
       end
     end
@@ -422,7 +454,10 @@ Definition clear (h : hub) (ch : N) : hub :=
     | None => h
     | Some c =>
         let kexp := fold_left (fun m kv => adel ck_eqb m (ch, fst kv)) (c_state c) (h_kexp h) in
-        set_chans (set_exp h kexp (h_queue h) (h_next h)) (adel N.eqb (h_chans h) ch)
+        let r := h_ret h in
+        set_ret (set_chans (set_exp h kexp (h_queue h) (h_next h)) (adel N.eqb (h_chans h) ch))
+                (mkRet (adel N.eqb (r_sexp r) ch) (r_squeue r) (r_snext r)
+                       (adel N.eqb (r_rexp r) ch) (r_rqueue r) (r_rnext r))
     end in
   set_idem h1 (adel N.eqb (h_idem h1) ch).
 
@@ -433,7 +468,11 @@ Inductive sres := SUnrec | SOk (pubs : list pub) (p : pos).
 Definition create_chan (h : hub) (ch : N) : hub * pos :=
   (set_nep (set_chan h ch (new_chan (h_nep h) false)) (h_nep h + 1), (0, h_nep h)).
 
-Definition read_stream (h : hub) (ch : N) (since : option pos) (limit : Z) (reverse : bool) : hub * sres :=
+Definition mttl_of (cfgs : list rawcfg) (ch : N) : N :=
+  match cfg_of cfgs ch with CfgOk cf => cf_mttl cf | CfgErr _ => 0 end.
+
+Definition read_stream (cfgs : list rawcfg) (h0 : hub) (ch : N) (since : option pos) (limit : Z) (reverse : bool) : hub * sres :=
+  let h := touch_meta h0 ch (mttl_of cfgs ch) in          (* updateMetaTTL, before anything else *)
   match get_chan h ch with
   | None => let '(h1, p) := create_chan h ch in (h1, SOk [] p)
   | Some c =>
@@ -602,7 +641,8 @@ Definition read_state (cfgs : list rawcfg) (h : hub) (ch : N)
            (rev : option pos) (cursor : list N) (limit : Z) (k : key) (asc : bool) : hub * stres :=
   match cfg_of cfgs ch with
   | CfgErr e => (h, StErr e)
-  | CfgOk _ =>
+  | CfgOk cf0 =>
+    let h := touch_meta h ch (cf_mttl cf0) in             (* updateMetaTTL *)
     match get_chan h ch with
     | None =>
         let '(h1, p) := create_chan h ch in
@@ -732,6 +772,63 @@ Fixpoint phase2_all (fuel : nat) (h : hub) : hub :=
   | S f => match phase2 h with Some h' => phase2_all f h' | None => h end
   end.
 
+(* ------------------------------------------ StreamTTL / MetaTTL sweeps *)
+Definition item2_ltb (a b : N * N) : bool :=
+  if snd a <? snd b then true else if snd b <? snd a then false else fst a <? fst b.
+Fixpoint pop_min2 (q : list (N * N)) : option ((N * N) * list (N * N)) :=
+  match q with
+  | [] => None
+  | x :: q' =>
+      match pop_min2 q' with
+      | None => Some (x, [])
+      | Some (m, r) => if item2_ltb m x then Some (m, x :: r) else Some (x, q')
+      end
+  end.
+
+(* the loop shared by expireStreams and removeChannels: pops due items,
+   re-queues channels whose recorded deadline is later, and returns the
+   channels whose deadline has passed ("fired"), the remaining map / queue and
+   the next check time.  The last component is false iff the model's fuel ran
+   out (never, see Proofs/MapRetention.v). *)
+Fixpoint ttl_loop (fuel : nat) (m q : list (N * N)) (now : N) (fired : list N)
+  : list (N * N) * list (N * N) * list N * N * bool :=
+  match fuel with
+  | O => (m, q, fired, 0, false)
+  | S f =>
+    match pop_min2 q with
+    | None => (m, q, fired, 0, true)
+    | Some ((ch, e), q') =>
+      if now <? e then (m, q, fired, e, true) else
+      match aget N.eqb m ch with
+      | None => ttl_loop f m q' now fired
+      | Some exp => if exp <=? e then ttl_loop f (adel N.eqb m ch) q' now (fired ++ [ch])
+                    else ttl_loop f m ((ch, exp) :: q') now fired
+      end
+    end
+  end.
+
+Definition clear_stream (h : hub) (ch : N) : hub :=          (* Stream.Clear: top and epoch stay *)
+  match get_chan h ch with
+  | Some c => set_chan h ch (set_stream c (mkStream (s_top (c_stream c)) (s_epoch (c_stream c)) []))
+  | None => h
+  end.
+
+(* one iteration of mapHub.expireStreams (one hub-lock section) *)
+Definition expire_streams (h : hub) : hub * bool :=
+  let r := h_ret h in
+  if (r_snext r =? 0) || (h_now h <? r_snext r) then (h, true) else
+  let '(m, q, fired, next, ok) := ttl_loop (2 * length (r_squeue r) + 1) (r_sexp r) (r_squeue r) (h_now h) [] in
+  (fold_left clear_stream fired (set_ret h (mkRet m q next (r_rexp r) (r_rqueue r) (r_rnext r))), ok).
+
+(* one iteration of mapHub.removeChannels: the channel object is discarded
+   (its keyExpires / expires / idempotency entries are left behind) *)
+Definition remove_channels (h : hub) : hub * bool :=
+  let r := h_ret h in
+  if (r_rnext r =? 0) || (h_now h <? r_rnext r) then (h, true) else
+  let '(m, q, fired, next, ok) := ttl_loop (2 * length (r_rqueue r) + 1) (r_rexp r) (r_rqueue r) (h_now h) [] in
+  let h1 := set_ret h (mkRet (r_sexp r) (r_squeue r) (r_snext r) m q next) in
+  (set_chans h1 (fold_left (fun cs ch => adel N.eqb cs ch) fired (h_chans h1)), ok).
+
 (* -------------------------------------------------- operations / labels *)
 Inductive op :=
 | OPublish (ch : N) (k : key) (o : popts)
@@ -742,7 +839,9 @@ Inductive op :=
 | OAdvance (n : N)
 | OPhase1            (* enabled when no sweep is in flight *)
 | OPhase2            (* enabled when a candidate is pending *)
-| OSweep.            (* a whole uninterrupted expireKeysIteration *)
+| OSweep             (* a whole uninterrupted expireKeysIteration *)
+| OExpireStreams     (* one iteration of the StreamTTL sweeper *)
+| ORemoveChannels.   (* one iteration of the MetaTTL sweeper *)
 
 Inductive res :=
 | RUpd (u : ures) | RState (r : stres) | RStream (r : sres) | RUnit
@@ -755,7 +854,7 @@ Definition step (cfgs : list rawcfg) (h : hub) (o : op) : hub * res :=
   | ORemove ch k ro => let '(h', u) := remove cfgs h ch k ro in (h', RUpd u)
   | OClear ch => (clear h ch, RUnit)
   | OReadState ch rev cur lim k asc => let '(h', r) := read_state cfgs h ch rev cur lim k asc in (h', RState r)
-  | OReadStream ch since lim rv => let '(h', r) := read_stream h ch since lim rv in (h', RStream r)
+  | OReadStream ch since lim rv => let '(h', r) := read_stream cfgs h ch since lim rv in (h', RStream r)
   | OAdvance n => (set_now h (h_now h + n), RUnit)
   | OPhase1 =>
       match h_pend h with
@@ -769,6 +868,8 @@ Definition step (cfgs : list rawcfg) (h : hub) (o : op) : hub * res :=
               (phase2_all (length (h_pend h')) h', if ok then RUnit else RFuel)
       | _ => (h, RBlocked)
       end
+  | OExpireStreams => let '(h', ok) := expire_streams h in (h', if ok then RUnit else RFuel)
+  | ORemoveChannels => let '(h', ok) := remove_channels h in (h', if ok then RUnit else RFuel)
   end.
 
 Fixpoint run (cfgs : list rawcfg) (h : hub) (ops : list op) : hub * list res :=
